@@ -300,11 +300,24 @@ def run(ctx):
         others = sorted(t for t, p in resolved_facts(fst[n.id]) if recv not in t and "self.stopping" not in t)
         r.check(not others, "%s#cancel(%s)-unconditional" % (stop.qname, recv),
                 "cancel of %s in stop() is subject to unrelated conditions %s" % (recv, others), where(stop, n.stmt))
+    # a send made after stop() is failed at once: the enqueue is reached only while not stopping (a request queued after
+    # stop() would never be dispatched and its Deferred would never fire)
+    csm = ctx.cfg(sendm)
+    fsm = ctx.facts(sendm)
+    enqs = [n for n in csm.nodes if any(call_name(c) == "append" and call_recv(c) == "self._batch_reqs" for c in n.calls())]
+    r.check(bool(enqs) and all(("self.stopping", False) in fsm[n.id] or ("not self.stopping", True) in fsm[n.id] for n in enqs),
+            "%s#no-enqueue-after-stop" % sendm.qname, "send_messages() queues a request although the producer has been stopped",
+            where(sendm, enqs[0].stmt if enqs else sendm.node), "send_messages() after stop(): the returned Deferred never fires")
     lp = [n for n in scfg.nodes if any(call_name(c) == "stop" and call_recv(c) == "self._sendLooper" for c in n.calls())]
     r.check(bool(lp), "%s#looper-stopped" % stop.qname, "stop() does not stop the periodic timer", where(stop, stop.node))
 
 
 MUTANTS = [
+    {"id": "retry-scheduled-while-stopping", "file": "producer.py", "old": "            if self.stopping or self._req_attempts >= self._max_attempts:",
+     "new": "            if self._req_attempts >= self._max_attempts:", "expect": "C19.R4", "note": "finding F18"},
+    {"id": "enqueue-after-stop", "file": "producer.py",
+     "old": "        if self.stopping:\n            # stop() has failed everything that was outstanding and nothing\n            # is dispatched any more: a request queued now would never fire.\n            return fail(Failure(CancelledError(request_sent=False, message=\"Producer has been stopped\")))\n",
+     "new": "", "expect": "C19.R5", "note": "finding F19"},
     {"id": "stop-flag-unread", "file": "producer.py", "old": "        if self.stopping:\n            return\n", "new": "",
      "expect": "C19.R4", "note": "queued batch starts its partition lookups (metadata requests) during stop()"},
     {"id": "send-stage-ignores-stop", "file": "producer.py", "old": "if not payloads or self.stopping:", "new": "if not payloads:",
